@@ -133,3 +133,20 @@ Proof.
   intros Q HQ q v wind w r mp c vj. split; [exact (v_inf_and_rot_rigid Q HQ q v wind w r)|]. split; [exact (joint_v_inf_rigid Q HQ mp q v wind w r) | exact (trailing_dir_rigid Q HQ c q vj)].
 Qed.
 Print Assumptions C03_flow_rotates.
+
+(* ---------------------------------------------------------------------------------------------------------------------------------
+   The Earth-frame arrays a scene is solved on are assembled from every aircraft's body-frame arrays, position and attitude
+   (scene.py 440-530, Model/Assemble.v; tied to the live scene arrays of multi-aircraft scenes in the C13 run).  Under a rigid motion of
+   the whole scene - attitude r q (first r, then q), position t + R_r^-1 p - every assembled control point and node (own aircraft:
+   effective line; other aircraft: actual line) is the moved one, directions turn, and the node-to-control-point vectors, which are all
+   the influence and the residual see, only turn. *)
+From MuxV Require Import Model.Assemble Proofs.AssembleP.
+Theorem C03_assembly_moves_rigidly : forall (r : quat R) (t : v3 R) (q : quat R) (p : v3 R),
+  (forall x, to_earth (moved_q r q) (moved_p r t p) x = move r t (to_earth q p x)) /\
+  (forall u, dir_to_earth (moved_q r q) u = quat_inv_trans r (dir_to_earth q u)) /\
+  (forall same e a, node_seen same (moved_q r q) (moved_p r t p) e a = move r t (node_seen same q p e a)) /\
+  (forall pc node, r_vec (move r t pc) (move r t node) = quat_inv_trans r (r_vec pc node)).
+Proof.
+  intros. split; [intro; apply to_earth_rigid | split; [intro; apply dir_to_earth_rigid | split; [intros; apply node_seen_rigid | intros; apply r_vec_rigid]]].
+Qed.
+Print Assumptions C03_assembly_moves_rigidly.
